@@ -1627,10 +1627,16 @@ func callBin(n *node) {
 		// Execute function in a goroutine, discard results.
 		n.exec = func(f *frame) bltn {
 			in := make([]reflect.Value, l)
-			for i, v := range values {
-				in[i] = getBinValue(getMapType, v, f)
+			// The function value and the arguments are evaluated by the go statement,
+			// not by the new goroutine: do not pass the variables they are read from.
+			fn := value(f)
+			if fn.CanAddr() {
+				fn = copyDeferArg(fn)
 			}
-			go callFn(value(f), in)
+			for i, v := range values {
+				in[i] = copyDeferArg(getBinValue(getMapType, v, f))
+			}
+			go callFn(fn, in)
 			return tnext
 		}
 	case fnext != nil:
